@@ -117,7 +117,8 @@ def _splice(bj, call_bb, callee_j, arg_ops, dest, target, is_poll, upvar_args=No
             for blk in callee_j["blocks"]:
                 for st in blk["stmts"]:
                     if st["s"] == "assign":
-                        for pl in (st["place"], st["rv"].get("place"), (st["rv"].get("op") or {}).get("place")):
+                        _op = st["rv"].get("op")      # an operand for use/cast rvalues, the operator's name for unop/binop
+                        for pl in (st["place"], st["rv"].get("place"), _op.get("place") if isinstance(_op, dict) else None):
                             if pl and pl["local"] == 1:
                                 for e in pl["proj"]:
                                     if e["p"] == "field" and e["i"] == k and "ty" in e:
